@@ -272,20 +272,35 @@ def run_many(tier: str, seed: int):
     viol = []
     res = {}
     with engine.Quiet():
-        for n_conn, mode in ((120, "dynamic"), (300, "mixed")):
+        for n_conn, mode in ((120, "dynamic"), (300, "mixed"), (300, "massdeath")):
             st = Stand(False, salt=seed)
             h = st.h
             try:
                 for i in range(n_conn):
                     c = f"x{i}"
                     h.open(c)
-                    if mode == "dynamic" or i % 3 == 0:
+                    if mode == "massdeath":
+                        h.send(c, scenarios.con2(50, 1, ""))
+                        h.send(c, scenarios.con(50))
+                    elif mode == "dynamic" or i % 3 == 0:
                         h.send(c, scenarios.con2(0, 1, ""))
                     else:
                         h.send(c, scenarios.con2(1 + i % 99, 1, ""))
                     if i % 16 == 0:
                         h.run_until_quiet()
                 if h.alive():
+                    h.run_until_quiet()
+                if mode == "massdeath":
+                    # every one of them subscribes to everything, then all are gone at the same instant (their
+                    # writes fail); the next published message finds them all dead in ONE forward
+                    for i in range(n_conn):
+                        h.send(f"x{i}", scenarios.sub(15, 50, 0x7FFFFFFF))
+                        if i % 16 == 0:
+                            h.run_until_quiet()
+                    h.run_until_quiet()
+                    for i in range(n_conn):
+                        h.die(f"x{i}", "hdr" if i % 2 else "pay")
+                    h.send("p", {"k": "f", "t": 1234, "src": 4, "dst": 0, "dhost": 0, "p": {"k": "d", "id": 9, "size": 24}})
                     h.run_until_quiet()
                 for k in range(3):
                     if h.alive():
@@ -309,7 +324,11 @@ def run_many(tier: str, seed: int):
                 problem = f"BystanderClosed({','.join(st.bystanders_closed())})"
             res[f"{n_conn}:{mode}"] = problem or "ok"
             if problem:
-                viol.append({"signature": f"C03/{problem.split('(')[0]}:{h.crashed or ''}/class:many-connections:{n_conn}",
+                crashed = h.crashed or ""
+                if crashed.startswith("RecursionError"):
+                    crashed = "RecursionError"   # the frame in which the stack ran out is incidental
+                cls = "mass-death" if mode == "massdeath" else "many-connections"
+                viol.append({"signature": f"C03/{problem.split('(')[0]}:{crashed}/class:{cls}:{n_conn}",
                              "replay": {"kind": "many", "n": n_conn, "mode": mode, "problem": problem, "traceback": h.net.mgr_tb[-1500:]}})
             h.close()
     return res, viol
